@@ -40,6 +40,8 @@ EXTENDS Integers, Sequences, FiniteSets, TLC, Json
 CONSTANTS Max,      \* capacity
           IE,       \* "off" | "instant" | "never"
           Rule1,    \* "front" | "any": which expired in-flight entry ladder rule 1 looks for
+          Offline,  \* "all" | "addonly": after Close only Add and Init are generated ("addonly": the broker is restarted
+                    \* while the session is offline, there is no connection that could read or acknowledge)
           Menu,     \* set of [qos, exp, big]: the kinds of message Add may insert
           NMsg,     \* bound: number of Add operations (tags 1..NMsg in insertion order)
           Ids,      \* packet ids the caller supplies to Read
@@ -223,7 +225,10 @@ Add(it) ==
 FreeIds == Ids \ Pids(st.q)
 IdSeqs(F) == {s \in UNION {[1..k -> F] : k \in 1..RdMax} : \A i, j \in 1..Len(s) : i # j => s[i] # s[j]}
 
+Online == Offline = "addonly" => ~st.closed
+
 Read(ids) ==
+  /\ Online
   /\ st.drained /\ (st.closed \/ st.cur < Len(st.q))
   /\ LET r == DoRead(st, ids)
          given == {r.out.ret[i].pid : i \in 1..Len(r.out.ret)}
@@ -237,6 +242,7 @@ Read(ids) ==
   /\ UNCHANGED nadd
 
 ReadInflight(n) ==
+  /\ Online
   /\ ~st.drained
   /\ LET r == DoReadInflight(st, n)
      IN /\ st' = r.st
@@ -245,6 +251,7 @@ ReadInflight(n) ==
   /\ UNCHANGED <<nadd, gone, fate, lastH>>
 
 Remove(pid) ==
+  /\ Online
   /\ pid \in Handed(st) \cup gone
   /\ LET r == DoRemove(st, pid)
      IN /\ st' = r.st
@@ -256,6 +263,7 @@ Remove(pid) ==
 
 \* a PUBREC is only owed for a QoS 2 PUBLISH that was handed out
 Replace(pid) ==
+  /\ Online
   /\ \E i \in 1..st.cur : st.q[i].pid = pid /\ st.q[i].kind = "pub" /\ st.q[i].qos = 2
   /\ LET r == DoReplace(st, pid)
      IN /\ st' = r.st
